@@ -112,7 +112,7 @@ Definition outcome_of (c : cause) (child_failed : bool) : outcome :=
   | CForeign => ForeignExc
   end.
 
-Fixpoint upd {A} (i : nat) (x : A) (l : list A) : list A :=
+Fixpoint upd {A} (i : nat) (x : A) (l : list A) {struct l} : list A :=
   match l, i with
   | [], _ => []
   | _ :: r, 0 => x :: r
